@@ -1358,7 +1358,13 @@ class Pool:
         return next(i for i in range(self._processes) if i not in indices)
 
     def did_start_ok(self):
-        return not self._join_exited_workers()
+        joined = self._join_exited_workers()
+        # whoever reaps gives the slots of the reaped workers back: the
+        # supervisor's next pass finds nobody left to reap.
+        for _ in joined:
+            if self._putlock is not None:
+                self._putlock.release()
+        return not joined
 
     def _maintain_pool(self):
         """"Clean up any exited workers and start replacements for them.
